@@ -40,14 +40,14 @@ func genIntroCase(t *rapid.T) introCase {
 	c.dc.Mirror = rapid.Uint32().Draw(t, "ourmirror")
 	c.dc.MinProtocolVersion = rapid.Int32Range(-3, 5).Draw(t, "minver")
 	c.msg.Mirror = rapid.Uint32().Draw(t, "mirror")
-	if rapid.IntRange(0, 7).Draw(t, "self") == 0 {
+	if rapid.IntRange(0, 11).Draw(t, "self") == 0 {
 		c.msg.Mirror = c.dc.Mirror
 	}
 	if c.msg.Mirror == c.dc.Mirror {
 		c.broken = append(c.broken, "self_connection")
 	}
-	c.msg.ProtocolVersion = c.dc.MinProtocolVersion + rapid.Int32Range(-2, 3).Draw(t, "verdelta")
-	if rapid.IntRange(0, 9).Draw(t, "verext") == 0 {
+	c.msg.ProtocolVersion = c.dc.MinProtocolVersion + rapid.SampledFrom([]int32{0, 0, 0, 0, 1, 1, 2, 3, 100, -1, -2}).Draw(t, "verdelta")
+	if rapid.IntRange(0, 19).Draw(t, "verext") == 0 {
 		c.msg.ProtocolVersion = rapid.SampledFrom([]int32{-2147483648, 2147483647, 0, -1}).Draw(t, "verx")
 	}
 	if c.msg.ProtocolVersion < c.dc.MinProtocolVersion {
@@ -61,7 +61,7 @@ func genIntroCase(t *rapid.T) introCase {
 	var fieldBroken []string
 	// pubkey
 	pk := pub
-	switch rapid.IntRange(0, 7).Draw(t, "pkmode") {
+	switch rapid.IntRange(0, 13).Draw(t, "pkmode") {
 	case 0:
 		pk = gen.KeyN(5).Pub
 		fieldBroken = append(fieldBroken, "pubkey")
@@ -71,9 +71,9 @@ func genIntroCase(t *rapid.T) introCase {
 	}
 	extra = append(extra, pk[:]...)
 	// params
-	burn := rapid.SampledFrom([]uint32{2, 2, 10, 4294967295, 3, 0, 1}).Draw(t, "burn")
-	size := rapid.SampledFrom([]uint32{1024, 32768, 4294967295, 1025, 1023, 0}).Draw(t, "maxsize")
-	prec := rapid.SampledFrom([]uint8{0, 3, 6, 6, 7, 255}).Draw(t, "prec")
+	burn := rapid.SampledFrom([]uint32{2, 2, 10, 10, 10, 4294967295, 3, 0, 1}).Draw(t, "burn")
+	size := rapid.SampledFrom([]uint32{1024, 1024, 32768, 32768, 4294967295, 1025, 1023, 0}).Draw(t, "maxsize")
+	prec := rapid.SampledFrom([]uint8{0, 3, 3, 6, 6, 6, 7, 255}).Draw(t, "prec")
 	if burn < 2 {
 		fieldBroken = append(fieldBroken, "burn")
 	}
@@ -88,7 +88,7 @@ func genIntroCase(t *rapid.T) introCase {
 	extra = append(extra, prec)
 	// user agent
 	var ua string
-	uaMode := rapid.SampledFrom([]string{"valid", "valid", "valid", "invalid", "too_long", "max_len", "len_beyond", "sanitised"}).Draw(t, "uamode")
+	uaMode := rapid.SampledFrom([]string{"valid", "valid", "valid", "valid", "valid", "invalid", "too_long", "max_len", "len_beyond", "sanitised"}).Draw(t, "uamode")
 	uaLenField := -1
 	switch uaMode {
 	case "valid":
@@ -115,7 +115,7 @@ func genIntroCase(t *rapid.T) introCase {
 	extra = append(extra, le32(uint32(uaLenField))...)
 	extra = append(extra, ua...)
 	// genesis hash / trailing bytes
-	tail := rapid.SampledFrom([]int{0, 32, 32, 1, 31, 33, 40}).Draw(t, "tail")
+	tail := rapid.SampledFrom([]int{0, 0, 32, 32, 32, 1, 31, 33, 40}).Draw(t, "tail")
 	if uaMode == "len_beyond" {
 		tail = 0 // otherwise the trailing bytes would be swallowed by the oversized length prefix
 	}
